@@ -1,10 +1,20 @@
 (** C08 — pre-set options override, defaults yield, sections merge; inputs never mutated.
+    Three groups of statements:
+    (i)   what "o overlaid by P" is: the lookup theory of [mix] (induction on the key);
+    (ii)  MODEL CLAUSES: the wrapper theorems [C08_with_forced] … [C08_nesting_composes_validate]
+          restate (unfold) the model's clause [eval (EWith force p e) o = eval e (with_opts force p o)]
+          and its siblings — they say which dictionary the model evaluates under, nothing more;
+    (iii) EVALUATION-LEVEL theorems (Proofs/C08Eval.v), which combine (ii) with (i): what an Option,
+          a whole section, a dataset with options=/default_options=, keys(), and any expression of
+          the frame fragment yield under a wrapper, in terms of the pre-set dictionary and the
+          caller's dictionary separately.
     Only statements closed by [exact], each followed by [Print Assumptions]. *)
 From Coq Require Import List NArith ZArith Bool.
 Import ListNotations.
-From LV Require Import Model.Base Model.Template Model.Eval Model.Derived Proofs.BaseProofs Proofs.EvalProofs.
+From LV Require Import Model.Base Model.Template Model.Eval Model.Derived Model.EvalRun Model.Spec
+  Proofs.BaseProofs Proofs.EvalProofs Proofs.FrameProofs Proofs.TemplateFrame Proofs.C08Overlay Proofs.C08Eval.
 
-(** ** What "o overlaid by P" is: [mix o P], characterised by what a dotted-key lookup finds in
+(** ** (i) What "o overlaid by P" is: [mix o P], characterised by what a dotted-key lookup finds in
     it.  One step along the key: an index segment never addresses a dictionary; where P has
     nothing the caller's entry is used; where P has a section the two sections are merged
     (recursively); otherwise P's value wins. *)
@@ -47,6 +57,8 @@ Theorem C08_untouched_keys_are_the_callers : forall s k' o p,
 Proof. exact lookup_mix_untouched. Qed.
 Print Assumptions C08_untouched_keys_are_the_callers.
 
+(** ** (ii) Model clauses: under which dictionary the model evaluates a wrapper (unfoldings of
+    the clauses of Model/Eval.v and of [dataset_expr]; the content is in (i) and (iii)). *)
 Section Wrappers.
   (* for every store, store operations, switch configuration, user code, budget, ghost oracle *)
   Variable S : Type.
@@ -130,6 +142,280 @@ Print Assumptions C08_with_default_options_derivative.
 Print Assumptions C08_nesting_composes.
 Print Assumptions C08_nesting_composes_validate.
 
+(** ** (i, continued) keys an overlay leaves alone.  [untouched k p]: walking [k] through [p]
+    meets sections only, until a name [p] lacks — [p] gives a value to no prefix and no extension
+    of [k].  Such a key is answered by the overlay as by the caller (unless the caller has a SCALAR
+    where [p] has a section: there the caller alone raises TypeError, the overlay KeyError). *)
+Theorem C08_untouched_keys_are_the_callers_deep : forall k o p,
+  wf_json (JObj p) = true -> forallb is_name k = true -> untouched k p = true ->
+  lookup k (JObj o) <> TypeErr ->
+  lookup k (JObj (mix o p)) = lookup k (JObj o).
+Proof. exact lookup_mix_untouched_deep. Qed.
+Print Assumptions C08_untouched_keys_are_the_callers_deep.
+
+Theorem C08_overlay_well_formed : forall o p,
+  wf_dict o = true -> wf_dict p = true -> wf_dict (mix o p) = true.
+Proof. exact wf_mix. Qed.
+Print Assumptions C08_overlay_well_formed.
+
+(** a member of a section both sides have is looked up in the merge of the two sections *)
+Theorem C08_section_member : forall k k2 a b sa sb,
+  wf_json (JObj b) = true -> forallb is_name k = true ->
+  lookup k (JObj a) = Found (JObj sa) -> lookup k (JObj b) = Found (JObj sb) ->
+  lookup (k ++ k2) (JObj (mix a b)) = lookup k2 (JObj (mix sa sb)).
+Proof. exact lookup_mix_section_member. Qed.
+Print Assumptions C08_section_member.
+
+(** the three layers of a dataset: default_options [D] yield to the caller [o], which yields to
+    options [P] — a lookup in the dictionary of [C08_dataset_options] *)
+Theorem C08_dataset_layers_lookup : forall k D o P,
+  wf_dict P = true -> wf_dict o = true -> k <> [] ->
+  (forall v, lookup k (JObj P) = Found v -> (forall m, v <> JObj m) ->
+     lookup k (JObj (mix (mix D o) P)) = Found v) /\
+  (forall v, forallb is_name k = true -> untouched k P = true ->
+     lookup k (JObj o) = Found v -> (forall m, v <> JObj m) ->
+     lookup k (JObj (mix (mix D o) P)) = Found v) /\
+  (forall r, forallb is_name k = true -> untouched k P = true -> untouched k o = true ->
+     lookup k (JObj D) = r -> r <> TypeErr ->
+     lookup k (JObj (mix (mix D o) P)) = r).
+Proof. exact dataset_layers_lookup. Qed.
+Print Assumptions C08_dataset_layers_lookup.
+
+(** ** (iii) Evaluation-level theorems.  [is_atom v]: None / bool / int / float (no template to
+    resolve, no section to merge). *)
+Section EvalLevel.
+  (* for every store, store operations, switch configuration, user code, budget, ghost oracle *)
+  Variable St : Type.
+  Variable mem_find : N -> fp -> St -> option value.
+  Variable mem_store : N -> fp -> value -> St -> St.
+  Variable cfg : config.
+  Variable ucall : N -> list value -> cres.
+  Variable rfuel : nat.
+  Variable site_ok : expr -> dict -> bool.
+  Notation eval := (eval St mem_find mem_store cfg ucall rfuel site_ok).
+  Notation keys := (keys St mem_find mem_store cfg ucall rfuel site_ok).
+  Notation is_read := EvalProofs.is_read.
+
+  (** (1) forced: a key to which P gives a non-section value evaluates to that value (resolved
+      against the overlay), WHATEVER the caller says about it; for an atom, as a whole
+      computation: the value, the store untouched, one read *)
+  Theorem C08_eval_forced_preset_wins : forall p k dflt v j o s,
+    wf_dict p = true -> k <> [] -> lookup k (JObj p) = Found v -> (forall m, v <> JObj m) ->
+    resolve rfuel (mix o p) v = ROk j ->
+    exists l, eval (EWith true p (EOption k dflt None)) o s = (Ok (VJ j), s, l) /\ forallb is_read l = true.
+  Proof. exact (with_forced_option_preset St mem_find mem_store cfg ucall rfuel site_ok). Qed.
+
+  Theorem C08_eval_forced_preset_wins_atom : forall p k dflt v o s f,
+    rfuel = S f -> wf_dict p = true -> k <> [] -> lookup k (JObj p) = Found v -> is_atom v = true ->
+    eval (EWith true p (EOption k dflt None)) o s = (Ok (VJ v), s, [EvRead k true]).
+  Proof. exact (with_forced_option_preset_atom St mem_find mem_store cfg ucall rfuel site_ok). Qed.
+
+  (** … a key of which P touches no prefix and no extension evaluates to the caller's value; for an
+      atom the wrapped Option IS the bare Option (same result, state, events); missing stays missing *)
+  Theorem C08_eval_forced_untouched_is_callers : forall p k dflt raw j o s,
+    wf_dict p = true -> forallb is_name k = true -> untouched k p = true ->
+    lookup k (JObj o) = Found raw -> resolve rfuel (mix o p) raw = ROk j ->
+    exists l, eval (EWith true p (EOption k dflt None)) o s = (Ok (VJ j), s, l) /\ forallb is_read l = true.
+  Proof. exact (with_forced_option_untouched St mem_find mem_store cfg ucall rfuel site_ok). Qed.
+
+  Theorem C08_eval_forced_untouched_is_callers_atom : forall p k dflt v o s f,
+    rfuel = S f -> wf_dict p = true -> forallb is_name k = true -> untouched k p = true ->
+    lookup k (JObj o) = Found v -> is_atom v = true ->
+    eval (EWith true p (EOption k dflt None)) o s = eval (EOption k dflt None) o s.
+  Proof. exact (with_forced_option_untouched_atom St mem_find mem_store cfg ucall rfuel site_ok). Qed.
+
+  Theorem C08_eval_forced_untouched_missing : forall p k dom o s,
+    wf_dict p = true -> forallb is_name k = true -> untouched k p = true ->
+    lookup k (JObj o) = Absent ->
+    eval (EWith true p (EOption k None dom)) o s = (Err (CKey k) true, s, [EvRead k false]).
+  Proof. exact (with_forced_option_untouched_missing St mem_find mem_store cfg ucall rfuel site_ok). Qed.
+
+  (** (2) defaults: the caller wins where it has the key; the default options supply it where the
+      caller lacks it; with neither the Option is missing *)
+  Theorem C08_eval_default_caller_wins : forall p k dflt v j o s,
+    wf_dict o = true -> k <> [] -> lookup k (JObj o) = Found v -> (forall m, v <> JObj m) ->
+    resolve rfuel (mix p o) v = ROk j ->
+    exists l, eval (EWith false p (EOption k dflt None)) o s = (Ok (VJ j), s, l) /\ forallb is_read l = true.
+  Proof. exact (with_default_option_caller_wins St mem_find mem_store cfg ucall rfuel site_ok). Qed.
+
+  Theorem C08_eval_default_caller_wins_atom : forall p k dflt v o s f,
+    rfuel = S f -> wf_dict o = true -> k <> [] -> lookup k (JObj o) = Found v -> is_atom v = true ->
+    eval (EWith false p (EOption k dflt None)) o s = (Ok (VJ v), s, [EvRead k true]).
+  Proof. exact (with_default_option_caller_wins_atom St mem_find mem_store cfg ucall rfuel site_ok). Qed.
+
+  Theorem C08_eval_default_supplies_missing : forall p k dflt raw j o s,
+    wf_dict o = true -> forallb is_name k = true -> untouched k o = true ->
+    lookup k (JObj p) = Found raw -> resolve rfuel (mix p o) raw = ROk j ->
+    exists l, eval (EWith false p (EOption k dflt None)) o s = (Ok (VJ j), s, l) /\ forallb is_read l = true.
+  Proof. exact (with_default_option_supplied St mem_find mem_store cfg ucall rfuel site_ok). Qed.
+
+  Theorem C08_eval_default_supplies_missing_atom : forall p k dflt v o s f,
+    rfuel = S f -> wf_dict o = true -> forallb is_name k = true -> untouched k o = true ->
+    lookup k (JObj p) = Found v -> is_atom v = true ->
+    eval (EWith false p (EOption k dflt None)) o s = (Ok (VJ v), s, [EvRead k true]).
+  Proof. exact (with_default_option_supplied_atom St mem_find mem_store cfg ucall rfuel site_ok). Qed.
+
+  Theorem C08_eval_default_neither_missing : forall p k dom o s,
+    wf_dict o = true -> forallb is_name k = true -> untouched k o = true ->
+    lookup k (JObj p) = Absent ->
+    eval (EWith false p (EOption k None dom)) o s = (Err (CKey k) true, s, [EvRead k false]).
+  Proof. exact (with_default_option_neither St mem_find mem_store cfg ucall rfuel site_ok). Qed.
+
+  (** (3) sections merge: a section both sides have evaluates, as a whole, to the merged
+      dictionary (pre-set entries win when forced, the caller's otherwise) … *)
+  Theorem C08_eval_section_merged : forall force p k dflt so sp j o s,
+    wf_dict p = true -> wf_dict o = true -> forallb is_name k = true ->
+    lookup k (JObj o) = Found (JObj so) -> lookup k (JObj p) = Found (JObj sp) ->
+    resolve rfuel (with_opts force p o) (JObj (if force then mix so sp else mix sp so)) = ROk j ->
+    exists l, eval (EWith force p (EOption k dflt None)) o s = (Ok (VJ j), s, l) /\ forallb is_read l = true.
+  Proof. exact (with_option_section_merged St mem_find mem_store cfg ucall rfuel site_ok). Qed.
+
+  (** … and under EITHER wrapper a member only the pre-set section has ([x]) and a member only the
+      caller's section has ([y]) are both visible *)
+  Theorem C08_eval_section_members_visible : forall force p k dflt so sp x y vx vy o s f,
+    rfuel = S f -> wf_dict p = true -> wf_dict o = true -> forallb is_name k = true ->
+    lookup k (JObj o) = Found (JObj so) -> lookup k (JObj p) = Found (JObj sp) ->
+    dget (SName x) sp = Some vx -> dget (SName x) so = None -> is_atom vx = true ->
+    dget (SName y) so = Some vy -> dget (SName y) sp = None -> is_atom vy = true ->
+    eval (EWith force p (EOption (k ++ [SName x]) dflt None)) o s = (Ok (VJ vx), s, [EvRead (k ++ [SName x]) true]) /\
+    eval (EWith force p (EOption (k ++ [SName y]) dflt None)) o s = (Ok (VJ vy), s, [EvRead (k ++ [SName y]) true]).
+  Proof. exact (with_section_members_visible St mem_find mem_store cfg ucall rfuel site_ok). Qed.
+
+  (** (5) keys() of a wrapped Option (after fix f469561 = D2).  A key fully determined by a forced
+      pre-set is NOT reported, whether or not the caller supplies it too … *)
+  Theorem C08_keys_forced_preset_not_reported : forall p k dflt dom v o s,
+    wf_dict p = true -> k <> [] -> lookup k (JObj p) = Found v -> is_atom v = true ->
+    lookup k (JObj o) <> TypeErr ->
+    keys (EWith true p (EOption k dflt dom)) o s = (Ok [], s, [EvRead k true]).
+  Proof. exact (keys_forced_preset_not_reported St mem_find mem_store cfg ucall rfuel site_ok). Qed.
+
+  (** … a pre-set SECTION the caller partly supplies (the merged section differs from the pre-set
+      one) IS reported — what D2 was about … *)
+  Theorem C08_keys_forced_section_partly_supplied_reported : forall p k dflt dom so sp o s,
+    wf_dict p = true -> k <> [] -> forallb is_name k = true ->
+    lookup k (JObj p) = Found (JObj sp) -> lookup k (JObj o) = Found (JObj so) ->
+    json_eq (JObj (mix so sp)) (JObj sp) = false ->
+    keys (EWith true p (EOption k dflt dom)) o s = (Ok [k], s, [EvRead k true]).
+  Proof. exact (keys_forced_section_partly_supplied_reported St mem_find mem_store cfg ucall rfuel site_ok). Qed.
+
+  (** … a key the pre-set does not touch is reported as without the wrapper … *)
+  Theorem C08_keys_forced_untouched_reported : forall p k dflt dom v o s,
+    wf_dict p = true -> forallb is_name k = true -> untouched k p = true ->
+    lookup k (JObj o) = Found v -> (forall str, v <> JStr str) ->
+    keys (EWith true p (EOption k dflt dom)) o s = (Ok [k], s, [EvRead k true]).
+  Proof. exact (keys_forced_untouched_reported St mem_find mem_store cfg ucall rfuel site_ok). Qed.
+
+  (** … under default options a key the caller supplies is reported, one only the defaults supply
+      is not *)
+  Theorem C08_keys_default_caller_supplied_reported : forall p k dflt dom v o s,
+    wf_dict o = true -> k <> [] -> lookup k (JObj o) = Found v -> is_atom v = true ->
+    lookup k (JObj p) <> TypeErr ->
+    keys (EWith false p (EOption k dflt dom)) o s = (Ok [k], s, [EvRead k true]).
+  Proof. exact (keys_default_caller_supplied_reported St mem_find mem_store cfg ucall rfuel site_ok). Qed.
+
+  Theorem C08_keys_default_supplied_not_reported : forall p k dflt dom v o s,
+    wf_dict o = true -> forallb is_name k = true -> untouched k o = true ->
+    lookup k (JObj p) = Found v -> (forall str, v <> JStr str) ->
+    keys (EWith false p (EOption k dflt dom)) o s = (Ok [], s, [EvRead k true]).
+  Proof. exact (keys_default_supplied_not_reported St mem_find mem_store cfg ucall rfuel site_ok). Qed.
+End EvalLevel.
+Print Assumptions C08_eval_forced_preset_wins.
+Print Assumptions C08_eval_forced_preset_wins_atom.
+Print Assumptions C08_eval_forced_untouched_is_callers.
+Print Assumptions C08_eval_forced_untouched_is_callers_atom.
+Print Assumptions C08_eval_forced_untouched_missing.
+Print Assumptions C08_eval_default_caller_wins.
+Print Assumptions C08_eval_default_caller_wins_atom.
+Print Assumptions C08_eval_default_supplies_missing.
+Print Assumptions C08_eval_default_supplies_missing_atom.
+Print Assumptions C08_eval_default_neither_missing.
+Print Assumptions C08_eval_section_merged.
+Print Assumptions C08_eval_section_members_visible.
+Print Assumptions C08_keys_forced_preset_not_reported.
+Print Assumptions C08_keys_forced_section_partly_supplied_reported.
+Print Assumptions C08_keys_forced_untouched_reported.
+Print Assumptions C08_keys_default_caller_supplied_reported.
+Print Assumptions C08_keys_default_supplied_not_reported.
+
+(** (4) the dataset decorator, on the cache-free reference instance ([evalN]: what labrea
+    computes inside [labrea.cache.disabled()]).  A dataset without overloads, callback or
+    effects ([plain_dataset body c P D]: body, cache, options=P, default_options=D) has the value
+    of its body under (D overlaid by o) overlaid by P, whatever the body and the cache … *)
+Notation evalN u fuel := (Eval.eval unit nc_find nc_store cfg_nc u fuel (fun _ _ => true)).
+Notation validateN u fuel := (Eval.validate unit nc_find nc_store cfg_nc u fuel (fun _ _ => true)).
+
+Theorem C08_plain_dataset_value : forall u fuel body c P D o,
+  fst (fst (evalN u fuel (dataset_expr (plain_dataset body c P D)) o tt)) = sem u fuel body (mix (mix D o) P).
+Proof. exact plain_dataset_value. Qed.
+Print Assumptions C08_plain_dataset_value.
+
+(** … so default_options yield to the caller, which yields to options: the dataset whose body
+    reads Option k returns the options' value if they have one; else the caller's; else the
+    default options'; else the key is missing *)
+Theorem C08_dataset_default_options_yield_to_caller_yield_to_options : forall u fuel k c P D o f,
+  fuel = S f -> wf_dict P = true -> wf_dict o = true -> k <> [] ->
+  let run := fst (fst (evalN u fuel (dataset_expr (plain_dataset (EOption k None None) c P D)) o tt)) in
+  (forall v, lookup k (JObj P) = Found v -> is_atom v = true -> run = Ok (VJ v)) /\
+  (forall v, forallb is_name k = true -> untouched k P = true ->
+     lookup k (JObj o) = Found v -> is_atom v = true -> run = Ok (VJ v)) /\
+  (forall v, forallb is_name k = true -> untouched k P = true -> untouched k o = true ->
+     lookup k (JObj D) = Found v -> is_atom v = true -> run = Ok (VJ v)) /\
+  (forallb is_name k = true -> untouched k P = true -> untouched k o = true ->
+     lookup k (JObj D) = Absent -> run = Err (CKey k) true).
+Proof. exact dataset_option_layers. Qed.
+Print Assumptions C08_dataset_default_options_yield_to_caller_yield_to_options.
+
+(** Arbitrary expressions of the frame fragment ([frag], Proofs/FrameProofs.v; [obs]: result and
+    option reads; [no_par]: no top-level name in the range the model reserves for template
+    parameters).  Evaluation / validation under a wrapper depends on the caller's dictionary only
+    through the keys the inner run looks up in the OVERLAID dictionary. *)
+Theorem C08_wrapper_frame : forall u fuel force p e o o',
+  frag e = true -> wf_dict p = true -> wf_dict o = true -> wf_dict o' = true ->
+  no_par p = true -> no_par o = true -> no_par o' = true ->
+  effects_opt_off (with_opts force p o') = effects_opt_off (with_opts force p o) ->
+  (agree_keys (with_opts force p o) (with_opts force p o')
+              (reads_of (snd (evalN u fuel e (with_opts force p o) tt))) ->
+     obs (evalN u fuel (EWith force p e) o' tt) = obs (evalN u fuel (EWith force p e) o tt)) /\
+  (agree_keys (with_opts force p o) (with_opts force p o')
+              (reads_of (snd (validateN u fuel e (with_opts force p o) tt))) ->
+     obs (validateN u fuel (EWith force p e) o' tt) = obs (validateN u fuel (EWith force p e) o tt)).
+Proof. exact with_frame. Qed.
+Print Assumptions C08_wrapper_frame.
+
+(** forced options that give a (non-section) value to every key the inner evaluation reads hide
+    the caller completely: every caller gets the same outcome *)
+Theorem C08_forced_options_hide_the_caller : forall u fuel p e o o',
+  frag e = true -> wf_dict p = true -> wf_dict o = true -> wf_dict o' = true ->
+  no_par p = true -> no_par o = true -> no_par o' = true ->
+  effects_opt_off (mix o' p) = effects_opt_off (mix o p) ->
+  (forall k, In k (reads_of (snd (evalN u fuel e (mix o p) tt))) ->
+     k <> [] /\ exists v, lookup k (JObj p) = Found v /\ forall m, v <> JObj m) ->
+  obs (evalN u fuel (EWith true p e) o' tt) = obs (evalN u fuel (EWith true p e) o tt).
+Proof. exact with_forced_hides_caller. Qed.
+Print Assumptions C08_forced_options_hide_the_caller.
+
+(** forced options that touch none of the keys the expression reads are invisible *)
+Theorem C08_forced_options_untouched_invisible : forall u fuel p e o,
+  frag e = true -> wf_dict p = true -> wf_dict o = true -> no_par p = true -> no_par o = true ->
+  effects_opt_off (mix o p) = effects_opt_off o ->
+  (forall k, In k (reads_of (snd (evalN u fuel e o tt))) ->
+     forallb is_name k = true /\ untouched k p = true /\ lookup k (JObj o) <> TypeErr) ->
+  obs (evalN u fuel (EWith true p e) o tt) = obs (evalN u fuel e o tt).
+Proof. exact with_forced_untouched_invisible. Qed.
+Print Assumptions C08_forced_options_untouched_invisible.
+
+(** default options yield: where the caller gives a (non-section) value to every key the inner
+    evaluation reads, the default options are irrelevant — any two give the same outcome *)
+Theorem C08_default_options_yield_to_the_caller : forall u fuel p p' e o,
+  frag e = true -> wf_dict p = true -> wf_dict p' = true -> wf_dict o = true ->
+  no_par p = true -> no_par p' = true -> no_par o = true ->
+  effects_opt_off (mix p' o) = effects_opt_off (mix p o) ->
+  (forall k, In k (reads_of (snd (evalN u fuel e (mix p o) tt))) ->
+     k <> [] /\ exists v, lookup k (JObj o) = Found v /\ forall m, v <> JObj m) ->
+  obs (evalN u fuel (EWith false p' e) o tt) = obs (evalN u fuel (EWith false p e) o tt).
+Proof. exact with_default_yields_to_caller. Qed.
+Print Assumptions C08_default_options_yield_to_the_caller.
+
 (** Non-vacuity: P, D and o overlapping inside one section. *)
 Example C08_overlay_example :
   let o := [(SName 20, JObj [(SName 21, JInt 1); (SName 22, JInt 2)]); (SName 10, JInt 7)]%N in
@@ -141,6 +427,7 @@ Example C08_overlay_example :
   lookup [SName 10]%N (JObj (mix o p)) = Found (JInt 7) /\
   lookup [SName 20; SName 22]%N (JObj (mix p o)) = Found (JInt 2).
 Proof. vm_compute. repeat split. Qed.
+Print Assumptions C08_overlay_example.
 
 (** mix is NOT associative when a scalar meets a section, which is why the derivative theorems
     state the exact bracketing the code uses. *)
@@ -150,3 +437,141 @@ Example C08_mix_not_associative :
   let c := [(SName 20, JObj [(SName 22, JInt 2)])]%N in
   mix (mix a b) c <> mix a (mix b c).
 Proof. vm_compute. discriminate. Qed.
+Print Assumptions C08_mix_not_associative.
+
+(** ** Non-vacuity at evaluation level (by computation on the reference instance and on the real
+    store).  User code: f(args) returns the tagged tuple (f, args). *)
+Definition u0 : N -> list value -> cres := fun f args => COk (VT f args).
+Definition opt (k : key) : expr := EOption k None None.
+Definition kA : key := [SName 10]%N.
+Definition kB : key := [SName 11]%N.
+Definition kC : key := [SName 12]%N.
+Definition kS : key := [SName 20]%N.
+Definition kSX : key := [SName 20; SName 21]%N.
+Definition kSY : key := [SName 20; SName 22]%N.
+Notation keysN u fuel := (Eval.keys unit nc_find nc_store cfg_nc u fuel (fun _ _ => true)).
+
+(** P = {'S': {'X': 1}}, o = {'S': {'Y': 2}}: under the forced AND under the default wrapper both
+    S.X and S.Y are visible and S evaluates to the merged section (the hypotheses of
+    [C08_eval_section_members_visible] / [C08_eval_section_merged] hold of this instance); keys():
+    S.X (fully pre-set) is not reported, S.Y (the caller's) and S (partly the caller's) are *)
+Example C08_ex_sections_merge_at_eval_level :
+  let p := [(SName 20, JObj [(SName 21, JInt 1)])]%N in
+  let o := [(SName 20, JObj [(SName 22, JInt 2)])]%N in
+  let run f k := fst (fst (evalN u0 10 (EWith f p (opt k)) o tt)) in
+  let ks f k := fst (fst (keysN u0 10 (EWith f p (opt k)) o tt)) in
+  wf_dict p = true /\ wf_dict o = true /\
+  lookup kS (JObj o) = Found (JObj [(SName 22, JInt 2)])%N /\ lookup kS (JObj p) = Found (JObj [(SName 21, JInt 1)])%N /\
+  run true kSX = Ok (VJ (JInt 1)) /\ run true kSY = Ok (VJ (JInt 2)) /\
+  run false kSX = Ok (VJ (JInt 1)) /\ run false kSY = Ok (VJ (JInt 2)) /\
+  run true kS = Ok (VJ (JObj [(SName 22, JInt 2); (SName 21, JInt 1)]))%N /\
+  run false kS = Ok (VJ (JObj [(SName 21, JInt 1); (SName 22, JInt 2)]))%N /\
+  ks true kSX = Ok [] /\ ks true kSY = Ok [kSY] /\ ks true kS = Ok [kS] /\
+  ks false kSX = Ok [] /\ ks false kSY = Ok [kSY] /\
+  json_eq (JObj (mix [(SName 22, JInt 2)] [(SName 21, JInt 1)]))%N (JObj [(SName 21, JInt 1)])%N = false.
+Proof. vm_compute. repeat split. Qed.
+Print Assumptions C08_ex_sections_merge_at_eval_level.
+
+(** forced vs default on one key, caller present / absent, and a key the pre-set does not touch *)
+Example C08_ex_override_and_yield :
+  let p := [(SName 10, JInt 1)]%N in
+  let run f k o := evalN u0 10 (EWith f p (opt k)) o tt in
+  run true kA [(SName 10, JInt 9)]%N = (Ok (VJ (JInt 1)), tt, [EvRead kA true]) /\
+  run true kA [] = (Ok (VJ (JInt 1)), tt, [EvRead kA true]) /\
+  run false kA [(SName 10, JInt 9)]%N = (Ok (VJ (JInt 9)), tt, [EvRead kA true]) /\
+  run false kA [] = (Ok (VJ (JInt 1)), tt, [EvRead kA true]) /\
+  untouched kB p = true /\
+  run true kB [(SName 11, JInt 7)]%N = evalN u0 10 (opt kB) [(SName 11, JInt 7)]%N tt /\
+  run true kB [] = (Err (CKey kB) true, tt, [EvRead kB false]) /\
+  run false kB [] = (Err (CKey kB) true, tt, [EvRead kB false]).
+Proof. vm_compute. repeat split. Qed.
+Print Assumptions C08_ex_override_and_yield.
+
+(** @dataset(options={'A': 1, 'S': {'X': 1}}, default_options={'A': 0, 'B': 0, 'C': 0, 'S': {'X': 0, 'Y': 0}},
+    callback=g) def f(A, B, C, S.X, S.Y) called with {'A': 5, 'B': 5, 'S': {'Y': 5}}, memory cache
+    on: A and S.X are the options' (1), B and S.Y the caller's (5), C the default options' (0) —
+    on the reference instance and on the real store alike; and the plain dataset of
+    [C08_dataset_default_options_yield_to_caller_yield_to_options], layer by layer *)
+Example C08_ex_dataset_three_layers :
+  let ds := {| ds_dispatch := no_dispatch; ds_table := [];
+               ds_default := Some (body 200 [opt kA; opt kB; opt kC; opt kSX; opt kSY]);
+               ds_callback := EPipe [pstep 201 []]; ds_effects := []; ds_effects_disabled := false;
+               ds_cache := CMem 1;
+               ds_options := [(SName 10, JInt 1); (SName 20, JObj [(SName 21, JInt 1)])]%N;
+               ds_default_options := [(SName 10, JInt 0); (SName 11, JInt 0); (SName 12, JInt 0);
+                                      (SName 20, JObj [(SName 21, JInt 0); (SName 22, JInt 0)])]%N |} in
+  let o := [(SName 10, JInt 5); (SName 11, JInt 5); (SName 20, JObj [(SName 22, JInt 5)])]%N in
+  let expected := Ok (VT 201 [VT 200 [VJ (JInt 1); VJ (JInt 5); VJ (JInt 0); VJ (JInt 1); VJ (JInt 5)]]) in
+  fst (fst (evalN u0 10 (dataset_expr ds) o tt)) = expected /\
+  fst (fst (Eval.eval store mem_find mem_store {| cache_ctx_off := false; log_ctx_off := false |}
+              u0 10 (fun _ _ => true) (dataset_expr ds) o [])) = expected /\
+  (let P := [(SName 10, JInt 1)]%N in
+   let D := [(SName 10, JInt 0); (SName 11, JInt 0); (SName 12, JInt 0)]%N in
+   let c := [(SName 10, JInt 5); (SName 11, JInt 5)]%N in
+   let run k := fst (fst (evalN u0 10 (dataset_expr (plain_dataset (opt k) (CMem 1) P D)) c tt)) in
+   run kA = Ok (VJ (JInt 1)) /\ run kB = Ok (VJ (JInt 5)) /\ run kC = Ok (VJ (JInt 0)) /\
+   run [SName 13]%N = Err (CKey [SName 13]%N) true /\
+   untouched kB P = true /\ untouched kC P = true /\ untouched kC c = true).
+Proof. vm_compute. repeat split. Qed.
+Print Assumptions C08_ex_dataset_three_layers.
+
+(** the hypotheses of [C08_forced_options_hide_the_caller] and
+    [C08_forced_options_untouched_invisible] on a composite expression: a list of Option A and a
+    switch on Option B choosing Option C; P = {A: 1, B: 1, C: 3} determines every key read, so two
+    quite different callers get the same outcome; P' = {Z: 0} touches none, so it is invisible *)
+Example C08_ex_frame_hypotheses :
+  let e := elist [opt kA; ESwitch (opt kB) [(VJ (JInt 1), opt kC)] (Some (opt kA))] in
+  let p := [(SName 10, JInt 1); (SName 11, JInt 1); (SName 12, JInt 3)]%N in
+  let o := [(SName 10, JInt 9); (SName 11, JInt 2)]%N in
+  let o' := [(SName 12, JObj [(SName 10, JInt 0)])]%N in
+  let p' := [(SName 30, JInt 0)]%N in
+  frag e = true /\ wf_dict p = true /\ wf_dict o = true /\ wf_dict o' = true /\
+  no_par p = true /\ no_par o = true /\ no_par o' = true /\
+  effects_opt_off (mix o' p) = effects_opt_off (mix o p) /\
+  forallb (fun k => match lookup k (JObj p) with
+                    | Found (JObj _) => false
+                    | Found _ => negb (Nat.eqb (length k) 0)
+                    | _ => false end) (reads_of (snd (evalN u0 10 e (mix o p) tt))) = true /\
+  obs (evalN u0 10 (EWith true p e) o' tt) = obs (evalN u0 10 (EWith true p e) o tt) /\
+  fst (fst (evalN u0 10 (EWith true p e) o tt)) = Ok (VT T_LIST [VJ (JInt 1); VJ (JInt 3)]) /\
+  fst (fst (evalN u0 10 e o tt)) = Ok (VT T_LIST [VJ (JInt 9); VJ (JInt 9)]) /\
+  forallb (fun k => forallb is_name k && untouched k p' &&
+                    match lookup k (JObj o) with TypeErr => false | _ => true end)
+          (reads_of (snd (evalN u0 10 e o tt))) = true /\
+  obs (evalN u0 10 (EWith true p' e) o tt) = obs (evalN u0 10 e o tt).
+Proof. vm_compute. repeat split. Qed.
+Print Assumptions C08_ex_frame_hypotheses.
+
+(** a templated pre-set value is resolved against the OVERLAY (the [resolve] hypothesis of
+    [C08_eval_forced_preset_wins]): P = {'A': '{B}'} forced over o = {'A': 9, 'B': 7} gives 7 *)
+Example C08_ex_templated_preset :
+  let p := [(SName 10, JStr [TRef kB])]%N in
+  let o := [(SName 10, JInt 9); (SName 11, JInt 7)]%N in
+  lookup kA (JObj p) = Found (JStr [TRef kB]) /\
+  resolve 10 (mix o p) (JStr [TRef kB]) = ROk (JInt 7) /\
+  fst (fst (evalN u0 10 (EWith true p (opt kA)) o tt)) = Ok (VJ (JInt 7)) /\
+  fst (fst (evalN u0 10 (EWith false p (opt kA)) o tt)) = Ok (VJ (JInt 9)).
+Proof. vm_compute. repeat split. Qed.
+Print Assumptions C08_ex_templated_preset.
+
+(** the hypotheses of [C08_default_options_yield_to_the_caller] (and of [C08_wrapper_frame], of
+    which it is an instance): the caller {A: 9, B: 1, C: 3} gives a value to every key the same
+    expression reads, so the default dictionaries {A: 0, B: 0, C: 0} and {A: 7, Z: 1} (and none at
+    all) are indistinguishable *)
+Example C08_ex_defaults_yield_hypotheses :
+  let e := elist [opt kA; ESwitch (opt kB) [(VJ (JInt 1), opt kC)] (Some (opt kA))] in
+  let p := [(SName 10, JInt 0); (SName 11, JInt 0); (SName 12, JInt 0)]%N in
+  let p' := [(SName 10, JInt 7); (SName 30, JInt 1)]%N in
+  let o := [(SName 10, JInt 9); (SName 11, JInt 1); (SName 12, JInt 3)]%N in
+  frag e = true /\ wf_dict p = true /\ wf_dict p' = true /\ wf_dict o = true /\
+  no_par p = true /\ no_par p' = true /\ no_par o = true /\
+  effects_opt_off (mix p' o) = effects_opt_off (mix p o) /\
+  forallb (fun k => match lookup k (JObj o) with
+                    | Found (JObj _) => false
+                    | Found _ => negb (Nat.eqb (length k) 0)
+                    | _ => false end) (reads_of (snd (evalN u0 10 e (mix p o) tt))) = true /\
+  obs (evalN u0 10 (EWith false p' e) o tt) = obs (evalN u0 10 (EWith false p e) o tt) /\
+  fst (fst (evalN u0 10 (EWith false p e) o tt)) = Ok (VT T_LIST [VJ (JInt 9); VJ (JInt 3)]) /\
+  fst (fst (evalN u0 10 (EWith false p e) [] tt)) = Ok (VT T_LIST [VJ (JInt 0); VJ (JInt 0)]).
+Proof. vm_compute. repeat split. Qed.
+Print Assumptions C08_ex_defaults_yield_hypotheses.
